@@ -33,8 +33,8 @@ static EXPECT: OnceLock<Expect> = OnceLock::new();
 fn expect() -> &'static Expect {
     EXPECT.get_or_init(|| {
         let o = oracle();
-        let names: HashMap<String, HandRankName> = HandRankName::iter().map(|n| (format!("{:?}", n), n)).collect();
-        let classes: HashMap<String, HandRankClass> = HandRankClass::iter().map(|c| (format!("{:?}", c), c)).collect();
+        let names: HashMap<String, HandRankName> = HandRankName::iter().map(|n| (super::variants::name_ident(n).to_string(), n)).collect();
+        let classes: HashMap<String, HandRankClass> = HandRankClass::iter().map(|c| (super::variants::class_ident(c).to_string(), c)).collect();
         let mut e = Expect { name: vec![], class: vec![], name_text: vec![], class_text: vec![] };
         for v in 0..=65535u32 {
             let (nt, ct) = match o.key_of_ord(v as u16) {
@@ -108,10 +108,10 @@ pub fn judge(case: &Case) -> Verdict {
                 if h.value != v {
                     problems.push("value-not-carried");
                 }
-                if format!("{:?}", h.name) != e.name_text[v as usize] || n != h.name {
+                if super::variants::name_ident(h.name) != e.name_text[v as usize] || n != h.name {
                     problems.push("wrong-category");
                 }
-                if format!("{:?}", h.class) != e.class_text[v as usize] || c != h.class {
+                if super::variants::class_ident(h.class) != e.class_text[v as usize] || c != h.class {
                     problems.push("wrong-class");
                 }
                 if inv == valid {
@@ -178,10 +178,10 @@ pub fn judge(case: &Case) -> Verdict {
             if h.value != ord {
                 problems.push("wrong-value");
             }
-            if format!("{:?}", h.name) != cat_text(key) {
+            if super::variants::name_ident(h.name) != cat_text(key) {
                 problems.push("category-does-not-describe-cards");
             }
-            if format!("{:?}", h.class) != class_text(key) {
+            if super::variants::class_ident(h.class) != class_text(key) {
                 problems.push("class-does-not-describe-cards");
             }
             if problems.is_empty() {
